@@ -124,7 +124,7 @@ pub fn eq32(a: f32, b: f32) -> bool {
 /// (sin(+-0) = +-0, cos(0) = 1, exp(0) = 1, exp_m1(0) = 0, ln_1p(0) = 0, atan(0) = 0, ...).
 #[cfg(kani)]
 pub mod uf {
-    const CAP: usize = 6;
+    const CAP: usize = 12;
     static mut KEYS: [(u8, u64, u64); CAP] = [(0, 0, 0); CAP];
     static mut VALS: [u64; CAP] = [0; CAP];
     static mut N: usize = 0;
@@ -170,6 +170,16 @@ pub mod uf {
     }
     pub fn sin_cos(x: f64) -> (f64, f64) {
         (sin(x), cos(x))
+    }
+    /// ln with the one concrete value the harnesses need
+    pub fn ln_c(x: f64) -> f64 {
+        if x == 2.0 {
+            return std::f64::consts::LN_2;
+        }
+        if x == 10.0 {
+            return std::f64::consts::LN_10;
+        }
+        ln(x)
     }
     pub fn log(x: f64, b: f64) -> f64 {
         f64::from_bits(call2(21, x.to_bits(), b.to_bits()))
@@ -233,4 +243,37 @@ pub mod uf {
     pub fn atan(x: f64) -> f64 { x.atan() }
     pub fn powf(x: f64, p: f64) -> f64 { x.powf(p) }
     pub fn powi(x: f64, n: i32) -> f64 { x.powi(n) }
+}
+
+/// "Tag" stubs: every libm function returns its own distinct constant (with the exact values of
+/// ln 2 and ln 10 the crate itself asks for). The surrounding float arithmetic is then concrete
+/// and CBMC simply executes it; a method forwarded to the wrong function yields another tag.
+#[cfg(kani)]
+pub mod tag {
+    pub fn sin(_x: f64) -> f64 { 0.28125 }
+    pub fn cos(_x: f64) -> f64 { 0.59375 }
+    pub fn sin_cos(x: f64) -> (f64, f64) { (sin(x), cos(x)) }
+    pub fn tan(_x: f64) -> f64 { 0.65625 }
+    pub fn asin(_x: f64) -> f64 { 0.78125 }
+    pub fn acos(_x: f64) -> f64 { 0.84375 }
+    pub fn atan(_x: f64) -> f64 { 0.90625 }
+    pub fn sinh(_x: f64) -> f64 { 1.03125 }
+    pub fn cosh(_x: f64) -> f64 { 1.09375 }
+    pub fn tanh(_x: f64) -> f64 { 1.15625 }
+    pub fn asinh(_x: f64) -> f64 { 1.21875 }
+    pub fn acosh(_x: f64) -> f64 { 1.34375 }
+    pub fn atanh(_x: f64) -> f64 { 1.46875 }
+    pub fn exp(_x: f64) -> f64 { 1.28125 }
+    pub fn exp2(_x: f64) -> f64 { 1.40625 }
+    pub fn exp_m1(_x: f64) -> f64 { 1.53125 }
+    pub fn ln(x: f64) -> f64 {
+        if x == 2.0 { std::f64::consts::LN_2 } else if x == 10.0 { std::f64::consts::LN_10 } else { -0.71875 }
+    }
+    pub fn ln_1p(_x: f64) -> f64 { -0.40625 }
+    pub fn log2(_x: f64) -> f64 { -1.03125 }
+    pub fn log10(_x: f64) -> f64 { -0.34375 }
+    pub fn cbrt(_x: f64) -> f64 { 0.96875 }
+    pub fn powi(_x: f64, n: i32) -> f64 { 2.09375 + n as f64 }
+    pub fn powf(_x: f64, _p: f64) -> f64 { 0.46875 }
+    pub fn atan2(_y: f64, _x: f64) -> f64 { 0.15625 }
 }
